@@ -156,6 +156,17 @@ func newSessGen(env *Env, r *WNode) *sessGen {
 	return g
 }
 
+// sizeOf returns the size of the file at a served path of the generated world (-1 when unknown)
+func (g *sessGen) sizeOf(p string) int64 {
+	var sz int64 = -1
+	g.root.Walk(func(rel string, x *WNode) {
+		if rel == p && !x.Dir {
+			sz = x.Content.Size()
+		}
+	})
+	return sz
+}
+
 func (g *sessGen) pick(l []string) string {
 	if len(l) == 0 {
 		return "/nothing"
@@ -284,7 +295,7 @@ func (g *sessGen) fragment(withCD bool) []*Req {
 	dir := strings.TrimSuffix(g.pick(g.dirs), "/")
 	newName := []string{"UP", "new", "n1", "n2"}[r.Intn(4)]
 	badCreates := []string{dir + "/nodir/x", "/***DVD***/" + strings.TrimPrefix(dir, "/") + "/x", g.pick(g.files) + "/x", "/" + strings.Repeat("L", 300), dir}
-	switch r.Intn(10) {
+	switch r.Intn(13) {
 	case 0: // upload in several writes
 		out := []*Req{{Op: opCreateFile, Path: dir + "/" + newName}}
 		for k := 0; k < 1+r.Intn(3); k++ {
@@ -315,6 +326,29 @@ func (g *sessGen) fragment(withCD bool) []*Req {
 		nd := dir + "/" + newName
 		return []*Req{{Op: opMkdir, Path: nd}, {Op: opCreateFile, Path: nd + "/f"}, payload(), {Op: opOpenDir, Path: nd}, {Op: opReadDir}, {Op: opRmdir, Path: nd},
 			{Op: opDeleteFile, Path: nd + "/f"}, {Op: opRmdir, Path: nd}, {Op: opStatFile, Path: nd}, {Op: opGetDirSize, Path: dir}}
+	case 9: // critical reads that cross the end of the file: the available bytes, then the end of the connection
+		f := g.pick(g.files)
+		sz := g.sizeOf(f)
+		if sz < 2 {
+			return []*Req{{Op: opOpenFile, Path: f}, {Op: opReadFileCritical, N: 300, Off: 0}, {Op: opStatFile, Path: f}}
+		}
+		back := int64(1 + r.Intn(int(min(sz-1, 3000))))
+		return []*Req{{Op: opOpenFile, Path: f}, {Op: opReadFileCritical, N: uint32(back), Off: uint64(sz - back)}, // exactly to the end: satisfied
+			{Op: opReadFileCritical, N: uint32(back + 1 + int64(r.Intn(500))), Off: uint64(sz - back)}, // crosses the end
+			{Op: opStatFile, Path: f}}
+	case 10: // uploads aimed at a generated image: below a virtual prefix nothing may be created or truncated
+		pre := []string{"/***PS3***", "/***DVD***"}[r.Intn(2)]
+		tgt := []string{g.pick(g.files), dir + "/" + newName, g.pick(g.dirs)}[r.Intn(3)]
+		real := tgt
+		return []*Req{{Op: opCreateFile, Path: pre + tgt}, payload(), {Op: opStatFile, Path: real}, {Op: opOpenFile, Path: real}, {Op: opReadFile, N: 5000, Off: 0},
+			{Op: opMkdir, Path: pre + dir + "/" + newName}, {Op: opDeleteFile, Path: pre + g.pick(g.files)}, {Op: opStatFile, Path: dir + "/" + newName}}
+	case 11: // sector reads with a count of zero and from sector 0
+		p := g.pick(g.files)
+		if withCD {
+			p = "/cd.bin"
+		}
+		return []*Req{{Op: opOpenFile, Path: p}, {Op: opReadCD, Start: 0, Cnt: 0}, {Op: opReadCD, Start: uint32(1 + r.Intn(20)), Cnt: 0}, {Op: opReadCD, Start: 0, Cnt: 1},
+			{Op: opReadCD, Start: 0, Cnt: uint32(r.Intn(4))}, {Op: opStatFile, Path: p}}
 	case 8: // removing the served root itself, under every spelling, then looking at it
 		spell := []string{"/", "", ".", "/.", "/..", "//", dir + "/..", "/./", "/../.."}
 		out := []*Req{}
